@@ -36,7 +36,7 @@ ASSUMPTIONS = [
 ]
 BOUNDS = {'quick': {'coefs': [-.5, .25, .5], 'consts': [0., 1.]}, 'thorough': {'coefs': [-.5, -.25, .25, .5], 'consts': [0., 1., -3.5]}}
 
-DRESS = ['plain', 'lagexo', 'user-t-endo', 'user-t-exo', 'k-expr', 'loop-names', 'transfer']
+DRESS = ['plain', 'lagexo', 'user-t-endo', 'user-t-exo', 'k-expr', 'loop-names', 'transfer', 'cap-names']
 MATH_ENV = dict((k, getattr(math, k)) for k in dir(math) if not k.startswith('_'))
 
 
@@ -70,6 +70,12 @@ def dress(eqs, kind, maxtime, excess):
         eqs.append(('DA', 'LAG_DA + g - 0.5*DA + 0.25*DB'))
         eqs.append(('DB', 'LAG_DB + 0.5*DA - 0.25*DB'))
         return Block(eqs, lags=[('LAG_DA', 'DA'), ('LAG_DB', 'DB')], exos=[('g', glist)], maxtime=maxtime, tol='1e-6')
+    if kind == 'cap-names':
+        # upper-case names that differ from the reserved time / step names only by case (T is the usual name for taxes)
+        eqs.append(('T', '.2*x + 1.'))
+        eqs.append(('K', 'T + LAG_K'))
+        eqs.append(('T_minus_1', '.5*T'))
+        return Block(eqs, lags=[('LAG_K', 'K')], maxtime=maxtime, tol='1e-6')
     if kind == 'loop-names':
         # variables spelled like the generated solver's own loop state
         eqs.append(('err', '0.5*err + .25*x'))
@@ -250,6 +256,22 @@ def run_block(block, gen_red, case):
         v, i = check_module(obj, block, c2)
         viols.extend(v)
         indet += i
+        if emission == 1 and not v:
+            # history on the emitted class: one period stepped by hand, then main() for the rest - same series as main() alone
+            try:
+                obj2 = mod.SFCModel()
+                obj2.RunOneStep()
+                core.with_deadline(30.0, obj2.main)
+                names = [n for n in dir(obj) if isinstance(getattr(obj, n), list) and not n.startswith('_')]
+                for n in sorted(names):
+                    if getattr(obj, n) != getattr(obj2, n):
+                        viols.append(core.violation('stepped-then-main-differs', 'RunOneStep(); main() gives %s = %r, main() alone %r' % (
+                            n, getattr(obj2, n)[:6], getattr(obj, n)[:6]), c2))
+                        break
+            except core.WorkBudgetExceeded:
+                viols.append(core.violation('unbounded-work', 'generated module did not stop (stepped, then main)', c2))
+            except Exception as e:
+                viols.append(core.violation('stepped-then-main-fails:' + type(e).__name__, 'RunOneStep(); main() raised %s: %s' % (type(e).__name__, str(e)[:120]), c2))
         if emission == 1 and not v:
             v, i = agree_with_inprocess(obj, block, c2)
             viols.extend(v)
